@@ -266,6 +266,15 @@ def build_session(sid, seed):
         if dx <= 2:
             pw = x ** 2
             checks.append(dict(kind="pow", z=add_obj(pw), x=kx, y=0, tree=0, k=2, margin=2 * dx))
+        # higher integer powers (the power algorithm itself, not only repeated squares): as far as the
+        # window leaves interior states (bosons 0..7: margin <= 6, ladders -4..4: margin <= 4)
+        cap = min([6 if m["kind"] == "boson" else 4 for m in modes if m["kind"] in ("boson", "ladder")] or [8])
+        for (w_, kw_, dw_) in ((x, kx, dx), (y, ky, dy)):
+            ks = [k_ for k_ in (3, 4, 5, 6) if max(dw_, 1) * k_ <= cap]
+            if ks and len(w_.args[1]) <= 4 if hasattr(w_, "args") else ks:
+                k_ = rng.choice(ks[-2:])
+                pw = w_ ** k_
+                checks.append(dict(kind="pow", z=add_obj(pw), x=kw_, y=0, tree=0, k=k_, margin=max(dw_, 1) * k_))
         # (xy)^dagger = y^dagger x^dagger, computed both ways by the real class
         lhs = Dagger(z)
         rhs = Dagger(y) * Dagger(x)
